@@ -71,6 +71,12 @@ impl Terminal {
             verif_keys: Some(std::collections::VecDeque::new()),
         }
     }
+    /// Give the history a file to append submitted lines to (what `Terminal::new` does with
+    /// the file in the cache directory).
+    #[cfg(lace_verif)]
+    pub fn verif_set_history_file(&mut self, file: File) {
+        self.history.file = Some(file);
+    }
     #[cfg(lace_verif)]
     pub fn verif_push_keys(&mut self, keys: impl IntoIterator<Item = Key>) {
         self.verif_keys
